@@ -204,6 +204,52 @@ def h_advertised(cx, kind, nlevels):
     cx.observe("adv_max", adv["if_max"])
 
 
+def h_advertised_after_scheduling(cx, kind, algo_kind):
+    """history: a real sorted algorithm has scheduled one period for a session on the station (through the real Interface); the
+    values the network / Interface advertise for the station afterwards are still its allowable set and are still accepted"""
+    env.install(cx)
+    A = acn()
+    import acnportal.algorithms as ALG
+    from acnportal.acnsim.models.evse import InvalidRateError
+
+    params = {"EVSE": (0, 32), "DEADBAND": (6, 32), "FINITE": (8, 16, 24, 32)}[kind]
+    evse = _make(kind, params)
+    net = A.ChargingNetwork()
+    net.register_evse(A.EVSE("Z", max_rate=11), 240, 0)
+    net.register_evse(evse, 208, 0)
+    net.add_constraint(A.Current({"S": 1, "Z": 1}), cx.real("limit", lo=0, hi=60), name="feeder")
+    algo = ALG.RoundRobin(ALG.first_come_first_served, continuous_inc=1) if algo_kind == "rr" else ALG.SortedSchedulingAlgo(ALG.first_come_first_served)
+    sim = A.Simulator(net, algo, A.EventQueue(), START, period=5, verbose=False)
+    ev = A.EV(0, 9, cx.real("req", lo=0, lo_open=True, hi=3), "S", "sess", A.Battery(100, 0, 50))
+    net.plugin(ev)
+    sim._iteration = 1
+    first = algo.run()
+    cx.observe("first", first)
+    cx.tag("scheduled_once")
+    iface = A.Interface(sim)
+    cont_i, allow_i = iface.allowable_pilot_signals("S")
+    info = iface.infrastructure_info()
+    k = info.get_station_index("S")
+    adv = dict(net_max=net.max_pilot_signals[1], net_min=net.min_pilot_signals[1], if_max=iface.max_pilot_signal("S"), if_min=iface.min_pilot_signal("S"),
+               info_max=info.max_pilot[k], info_min=info.min_pilot[k])
+    lists = dict(net=list(net.allowable_rates[1]), iface=list(allow_i), info=list(info.allowable_pilots[k]), evse=list(evse.allowable_pilot_signals))
+    want = list(evse.allowable_pilot_signals)
+    for src, lst in lists.items():
+        cx.check("after_scheduling:advertised_list_unchanged[%s]" % src, len(lst) == len(want) and all(bool(eq(a, b).weak()) if not is_sym(a) and not is_sym(b) else True for a, b in zip(lst, want)),
+                 note="%s vs %s" % ([str(v) for v in lst][:8], want))
+        for i, v in enumerate(lst[:40]):
+            adv["%s_allow%d" % (src, i)] = v
+    for name, v in adv.items():
+        cx.check("after_scheduling:advertised_in_set[%s]" % name.split("_allow")[0], _member(kind, params, v))
+        probe = _make(kind, params, "P")
+        try:
+            probe.set_pilot(v, 208, 5)
+            ok = True
+        except InvalidRateError:
+            ok = False
+        cx.check("after_scheduling:advertised_accepted[%s]" % name.split("_allow")[0], ok)
+
+
 def h_occupied(cx, kind, via_network):
     env.install(cx)
     A = acn()
@@ -263,6 +309,10 @@ def jobs(tier):
                               cost=(4 ** nl) * (2 if with_ev else 1)))
         js.append(Job("advertised[%s%s]" % (kind, nl or ""), h_advertised, dict(kind=kind, nlevels=nl), functions=FUNCS, expect_tags=("advertised",), max_paths=20000, timeout=3000,
                       bounds=dict(evse=kind, levels=nl, sources="EVSE properties, ChargingNetwork cache, Interface accessors, InfrastructureInfo"), cost=6 ** nl))
+    for kind in ("EVSE", "DEADBAND", "FINITE"):
+        for ak in (("rr",) if q else ("rr", "greedy")):
+            js.append(Job("advertised_after_scheduling[%s,%s]" % (kind, ak), h_advertised_after_scheduling, dict(kind=kind, algo_kind=ak), functions=FUNCS + ["acnportal.algorithms.sorted_algorithms.RoundRobin.round_robin/SortedSchedulingAlgo.schedule"],
+                          expect_tags=("scheduled_once",), max_paths=20000, timeout=3000, bounds=dict(evse=kind, parameters="concrete (0-32 / deadband 6 / levels 8,16,24,32)", history="one scheduling pass of a real %s algorithm for a session with a symbolic request on that station" % ak)))
     for kind in ("EVSE", "DEADBAND", "FINITE"):
         for via in (False, True):
             js.append(Job("occupied[%s,net=%d]" % (kind, via), h_occupied, dict(kind=kind, via_network=via), functions=FUNCS, expect_tags=("occupied",),
